@@ -260,6 +260,21 @@ Definition apply_events (fuel : nat) (t : table) (top : string) (mp : path) (ms 
                               end in
                     (ms', snd acc ++ ev)) es (ms, [])).
 
+(* entries whose overwrite of an older alias member was skipped by the special case (the member keeps its older line number) *)
+Definition special_skips (fuel : nat) (t : table) (top : string) (mp : path) (ms : list (string * member))
+  (es : list expanded_entry) : list (path * string) :=
+  snd (fold_left (fun acc e =>
+                    let ms := fst acc in
+                    let ms' := apply_one fuel t top mp ms e in
+                    let self_alias := is_alias (e_member e) && path_eqb (alias_target_path (e_member e)) (mp ++ [e_name e]) in
+                    let ev := match lookup (e_name e) ms, lookup (e_name e) ms' with
+                              | Some old, Some new =>
+                                  if is_alias old && negb self_alias && Nat.ltb (member_lineno old) (e_ln e) && member_eqb old new
+                                  then [(mp, e_name e)] else []
+                              | _, _ => []
+                              end in
+                    (ms', snd acc ++ ev)) es (ms, [])).
+
 Definition collect (st : modst) (tgt : path) (ln : nat) : list expanded_entry :=
   map (fun nm => mkE (fst nm) (snd nm) (tgt ++ [fst nm]) ln) (exposed_members st).
 
@@ -296,7 +311,11 @@ Definition ref_module_path (mp : path) (st : modst) (local : string) (attr : boo
   | None => None
   end.
 
-Record xstate := mkX { xt : table; xseen : list path; xunsup : bool; xdropped : list (path * string) }.
+Definition has_ref (ex : option (list item)) : bool :=
+  match ex with Some l => existsb (fun it => match it with IRef _ _ => true | _ => false end) l | None => false end.
+
+Record xstate := mkX { xt : table; xseen : list path; xunsup : bool; xdropped : list (path * string);
+                       xdone : list path; xpending : list (path * path) }.
 
 Definition set_exports (t : table) (p : path) (ex : option (list item)) : table :=
   match get_mod t p with Some st => set_mod t p (mkSt (members st) (imports st) ex) | None => t end.
@@ -307,7 +326,7 @@ Fixpoint expx (fuel : nat) (top : string) (mp : path) (s : xstate) : outcome xst
   match fuel with
   | 0 => OutOfFuel
   | S f =>
-      let s := mkX (xt s) (mp :: xseen s) (xunsup s) (xdropped s) in
+      let s := mkX (xt s) (mp :: xseen s) (xunsup s) (xdropped s) (xdone s) (xpending s) in
       match get_mod (xt s) mp with
       | None => Done s
       | Some st =>
@@ -321,7 +340,7 @@ Fixpoint expx (fuel : nat) (top : string) (mp : path) (s : xstate) : outcome xst
                   | IStr x :: r => go r (acc ++ [IStr x]) s
                   | IRef l a :: r =>
                       match ref_module_path mp st l a with
-                      | None => go r acc (mkX (xt s) (xseen s) true (xdropped s))
+                      | None => go r acc (mkX (xt s) (xseen s) true (xdropped s) (xdone s) (xpending s))
                       | Some p =>
                           match lookup_path (xt s) top p with
                           | LMod q =>
@@ -330,7 +349,11 @@ Fixpoint expx (fuel : nat) (top : string) (mp : path) (s : xstate) : outcome xst
                               | Done s' =>
                                   match get_mod (xt s') q with
                                   | Some stq => match exports stq with
-                                                | Some l' => go r (merge_exports acc l') s'
+                                                | Some l' =>
+                                                    let pend := negb (mem_path q (xdone s')) && has_ref (Some l') in
+                                                    let s2 := if pend then mkX (xt s') (xseen s') (xunsup s') (xdropped s') (xdone s')
+                                                                                   (xpending s' ++ [(mp, q)]) else s' in
+                                                    go r (merge_exports acc l') s2
                                                 | None => go r acc s'            (* TypeError caught, warning *)
                                                 end
                                   | None => go r acc s'
@@ -342,7 +365,7 @@ Fixpoint expx (fuel : nat) (top : string) (mp : path) (s : xstate) : outcome xst
                               if is_alias am then
                                 if mem_path (amp ++ [an]) (xseen s) then go r acc s
                                 else
-                                  let s1 := mkX (xt s) ((amp ++ [an]) :: xseen s) (xunsup s) (xdropped s) in
+                                  let s1 := mkX (xt s) ((amp ++ [an]) :: xseen s) (xunsup s) (xdropped s) (xdone s) (xpending s) in
                                   match final (S (List.length (xt s) * 8 + 64)) (xt s) top am (amp ++ [an]) with
                                   | FUnres => Crash "AliasResolutionError"
                                   | FObj _ _ => go r acc s1
@@ -354,15 +377,15 @@ Fixpoint expx (fuel : nat) (top : string) (mp : path) (s : xstate) : outcome xst
                                               | None => go r acc s1
                                               end
                                   end
-                              else go r acc (mkX (xt s) (xseen s) true (xdropped s))
-                          | LNone => go r acc (mkX (xt s) (xseen s) (xunsup s) (xdropped s ++ [(mp, l)]))   (* KeyError: continue *)
-                          | LUnsupported => go r acc (mkX (xt s) (xseen s) true (xdropped s))
+                              else go r acc (mkX (xt s) (xseen s) true (xdropped s) (xdone s) (xpending s))
+                          | LNone => go r acc (mkX (xt s) (xseen s) (xunsup s) (xdropped s ++ [(mp, l)]) (xdone s) (xpending s))   (* KeyError: continue *)
+                          | LUnsupported => go r acc (mkX (xt s) (xseen s) true (xdropped s) (xdone s) (xpending s))
                           end
                       end
                   end in
               match items ex [] s with
               | Done (expanded, s') =>
-                  let s'' := mkX (set_exports (xt s') mp (Some expanded)) (xseen s') (xunsup s') (xdropped s') in
+                  let s'' := mkX (set_exports (xt s') mp (Some expanded)) (xseen s') (xunsup s') (xdropped s') (mp :: xdone s') (xpending s') in
                   let subs :=
                     fix go (ms : list (string * member)) (s : xstate) : outcome xstate :=
                       match ms with
@@ -389,7 +412,9 @@ Fixpoint expx (fuel : nat) (top : string) (mp : path) (s : xstate) : outcome xst
 Record wstate := mkW { wt : table; wseen : list path; wdone : list path;
                        wpending : list (path * path);       (* (reader, module read while its own expansion was pending) *)
                        wunsup : bool;
-                       wreplaced : list (path * string * member) }.
+                       wreplaced : list (path * string * member);
+                       wspecial : list (path * string) }.       (* overwrites skipped by the submodule special case although the
+                                                                     existing member is an (older) alias: its line number stays *)
 
 Definition set_mod_members (t : table) (p : path) (ms : list (string * member)) : table :=
   match get_mod t p with Some st => set_mod t p (set_members st ms) | None => t end.
@@ -398,7 +423,7 @@ Fixpoint expw (fuel : nat) (top : string) (mp : path) (s : wstate) : outcome wst
   match fuel with
   | 0 => OutOfFuel
   | S f =>
-      let s := mkW (wt s) (mp :: wseen s) (wdone s) (wpending s) (wunsup s) (wreplaced s) in
+      let s := mkW (wt s) (mp :: wseen s) (wdone s) (wpending s) (wunsup s) (wreplaced s) (wspecial s) in
       match get_mod (wt s) mp with
       | None => Done s
       | Some st0 =>
@@ -416,14 +441,14 @@ Fixpoint expw (fuel : nat) (top : string) (mp : path) (s : wstate) : outcome wst
                           match get_mod (wt s') q with
                           | Some stq =>
                               let pend := mem_path q (wseen s) && negb (mem_path q (wdone s')) && has_star stq in
-                              let s2 := if pend then mkW (wt s') (wseen s') (wdone s') (wpending s' ++ [(mp, q)]) (wunsup s') (wreplaced s') else s' in
+                              let s2 := if pend then mkW (wt s') (wseen s') (wdone s') (wpending s' ++ [(mp, q)]) (wunsup s') (wreplaced s') (wspecial s') else s' in
                               go r (ex ++ collect stq q ln) (rm ++ [n]) s2
                           | None => go r ex rm s'
                           end
                       | other => match other with Crash e => Crash e | _ => OutOfFuel end
                       end
                   | LNone => go r ex rm s                                         (* KeyError: continue *)
-                  | _ => go r ex rm (mkW (wt s) (wseen s) (wdone s) (wpending s) true (wreplaced s))
+                  | _ => go r ex rm (mkW (wt s) (wseen s) (wdone s) (wpending s) true (wreplaced s) (wspecial s))
                   end
               | (n, MSub) :: r =>
                   if mem_path (mp ++ [n]) (wseen s) then go r ex rm s
@@ -439,7 +464,8 @@ Fixpoint expw (fuel : nat) (top : string) (mp : path) (s : wstate) : outcome wst
               let fl := S (List.length (wt s') * 8 + 64) in
               let ms2 := apply_expanded fl (wt s') top mp ms1 ex in
               Done (mkW (set_mod_members (wt s') mp ms2) (wseen s') (mp :: wdone s') (wpending s') (wunsup s')
-                        (wreplaced s' ++ apply_events fl (wt s') top mp ms1 ex))
+                        (wreplaced s' ++ apply_events fl (wt s') top mp ms1 ex)
+                        (wspecial s' ++ special_skips fl (wt s') top mp ms1 ex))
           | Crash e => Crash e
           | OutOfFuel => OutOfFuel
           end
@@ -455,14 +481,15 @@ Definition total_fuel (ms : list modsrc) : nat :=
   S (List.length ms * 4 + fold_left (fun a m => a + List.length (ms_body m)) ms 0 + 16).
 
 Record loaded := mkL { l_table : table; l_xseen : list path; l_pending : list (path * path); l_unsup : bool;
-                       l_dropped : list (path * string); l_replaced : list (path * string * member) }.
+                       l_dropped : list (path * string); l_replaced : list (path * string * member);
+                       l_xpending : list (path * path); l_special : list (path * string) }.
 
 Definition griffe_load (top : string) (ms : list modsrc) : outcome loaded :=
   let fuel := total_fuel ms in
-  match expx fuel top [top] (mkX (initial_table ms) [] false []) with
+  match expx fuel top [top] (mkX (initial_table ms) [] false [] [] []) with
   | Done x =>
-      match expw fuel top [top] (mkW (xt x) [] [] [] (xunsup x) []) with
-      | Done w => Done (mkL (wt w) (xseen x) (wpending w) (wunsup w) (xdropped x) (wreplaced w))
+      match expw fuel top [top] (mkW (xt x) [] [] [] (xunsup x) [] []) with
+      | Done w => Done (mkL (wt w) (xseen x) (wpending w) (wunsup w) (xdropped x) (wreplaced w) (xpending x) (wspecial w))
       | Crash e => Crash e
       | OutOfFuel => OutOfFuel
       end
@@ -562,8 +589,6 @@ Definition table_view (t : table) (top : string) : list (path * option (list ite
   let fuel := S (List.length t * 8 + 64) in
   map (fun pst => (fst pst, exports (snd pst), module_view fuel t top (fst pst) (snd pst))) t.
 
-Definition has_ref (ex : option (list item)) : bool :=
-  match ex with Some l => existsb (fun it => match it with IRef _ _ => true | _ => false end) l | None => false end.
 (* finding F1: modules whose __all__ still holds unexpanded names because expand_exports never reached them *)
 Definition unexpanded_unreached (l : loaded) : list path :=
   flat_map (fun pst => if has_ref (exports (snd pst)) && negb (mem_path (fst pst) (l_xseen l)) then [fst pst] else [])
@@ -856,7 +881,9 @@ Definition enc_load (top : string) (r : outcome loaded) : sexp :=
                      SList (map (fun rq => SList [SStr (dotted (fst rq)); SStr (dotted (snd rq))]) (l_pending l));
                      of_bool (l_unsup l);
                      SList (map (fun d => SList [SStr (dotted (fst d)); SStr (snd d)]) (l_dropped l));
-                     enc_alts (l_table l) top (l_replaced l)]
+                     enc_alts (l_table l) top (l_replaced l);
+                     SList (map (fun rq => SList [SStr (dotted (fst rq)); SStr (dotted (snd rq))]) (l_xpending l));
+                     SList (map (fun d => SList [SStr (dotted (fst d)); SStr (snd d)]) (l_special l))]
   | Crash e => SList [SStr "crash"; SStr e]
   | OutOfFuel => SList [SStr "out-of-fuel"]
   end.
